@@ -1,6 +1,6 @@
 (* C09 — everything that creates a polynomial yields canonical, CRT-consistent residues.  Statements only. *)
 From Coq Require Import ZArith List.
-From NTT Require Import Small Samplers SamplersExec Setters.
+From NTT Require Import Small Samplers SamplersExec Setters HwtStore.
 Local Open Scope Z_scope.
 
 (* uniform: any word, any modulus > 1: canonical *)
@@ -30,3 +30,10 @@ Print Assumptions C09_gaussian_consistent.
 Theorem C09_ternary_pinned_refuted : forall p, 1 < p -> exists byte, 0 <= byte < 256 /\ ~ (zo_store_pinned p 255 byte < p).
 Proof. exact ternary_pinned_refuted. Qed.
 Print Assumptions C09_ternary_pinned_refuted.
+
+(* fixed Hamming weight: every row is canonical and all rows are one signed polynomial with coefficients in {-1,0,1} (the same sign words
+   are reused for every modulus) *)
+Theorem C09_hwt_consistent : forall n pos signs, (length pos <= length signs)%nat -> forall p, 2 < p ->
+  hwt_row n p pos signs = map (fun i => hwt_val pos signs i mod p) (seq 0 n) /\ Forall (fun v => 0 <= v < p) (hwt_row n p pos signs).
+Proof. exact hwt_row_consistent. Qed.
+Print Assumptions C09_hwt_consistent.
